@@ -1,11 +1,12 @@
 (* Extraction of the C06 model (Model/Im.v), specification and monitor
    (Model/ImSpec.v).  ExtrOcamlBasic only: bool, option, list, prod, unit,
    sumbool map to OCaml's; N / positive / nat stay inductive. *)
-From RsM Require Import Lib.MachInt Model.Acl Model.AclSpec Model.Im Model.ImSpec.
+From RsM Require Import Lib.MachInt Model.Acl Model.AclSpec Model.Im Model.ImSpec Model.ImEvents.
 Require Import ExtrOcamlBasic.
 Extraction Language OCaml.
 Extraction "model.ml"
   N.add N.mul N.div_eucl
   subj_new subj_add_catid_ignore for_session acl_add_all
   status_code im_handle write_chunked spec_response spec_write_chunked holds holds_chunked wf_node wf_fabrics shape_stable
-  permitted served request_spec concrete_decision.
+  permitted served request_spec concrete_decision
+  read_events subscribe_events holds_events holds_group permitted_events.
